@@ -35,6 +35,13 @@ def run(run, replay=None):
     for _ in range(60 if quick else 600):
         data, _i = fgen.build_file(rng.choice(paths), rng)
         bases.append(data)
+    # 8-bit and UTF-16 files whose metadata holds non-ASCII characters literally (as other producers write them)
+    for _ in range(30 if quick else 300):
+        st = fgen.Style(rng)
+        st.json_style = rng.choice(['unsorted', 'spaced'])
+        data, _i = fgen.build_file(rng.choice(paths), rng, style=st, main_enc=rng.choice(['latin-1', 'cp1252', 'utf-16-be', 'koi8_r']),
+                                   encs=['latin-1', 'cp1252', 'utf-16-be'], metas=[{'k': 'é', 'ü': ['ñ']}, {'name': 'café'}])
+        bases.append(data)
     ws = wgen.walks(run, rng, 60 if quick else 600, 10, 0)
     for b in ws:
         _tr, data, _i = run_writer(0, rng.choice(pools.CTOR_ENCODINGS), wgen.conc(b, rng), Catalog(),
